@@ -214,5 +214,61 @@ def target_mrq():
     return (f"{MRQ}:_calculate_tau_gamma", MRQ, "_calculate_tau_gamma", run)
 
 
+def target_mrq_two_elements():
+    """two parallel elements in series, (RQ) followed by (RC): gamma is the SUM of the two closed forms, each with its own
+    R, Y|C, n -- nothing of one element may leak into the other"""
+    def run(sess: Session):
+        ctx = L.fresh_ctx([z3.Real(n_) > 0 for n_ in ("R1", "Y1", "R2", "C2", "tau", "W")])
+        P = ctx.P
+        R1, Y1, R2, C2, tau, W = (sym(n_) for n_ in ("R1", "Y1", "R2", "C2", "tau", "W"))
+        n1 = 0.8
+
+        class El:
+            def __init__(s, v):
+                s.v = v
+
+            def get_values(s):
+                return s.v
+
+        class Par:
+            def __init__(s, els):
+                s.els = els
+
+            def get_elements(s, recursive=True):
+                return s.els
+
+        class Ser:
+            pass
+
+        class Circ:
+            def get_connections(s):
+                return [Ser(), Par([El({"R": R1}), El({"Y": Y1, "n": n1})]), Par([El({"R": R2}), El({"C": C2})])]
+        app = lambda name: (lambda x: SQ.of(P.app(name, [Q.lift(x)])))
+
+        class Tau(SQ):
+            shape = (3,)
+        t = Tau(tau.re, tau.im, tau.den)
+
+        class Acc:
+            def __init__(s):
+                s.v = SQ.of(0)
+
+            def __iadd__(s, o):
+                s.v = s.v + o
+                return s
+        acc = Acc()
+        ns = L.load(MRQ, ["_calculate_tau_gamma"], {"_interpolate": lambda f, num_per_decade: 1 / (2 * O.base_namespace()["pi"] * t), "zeros": lambda *a, **k: acc,
+                                                    "Series": Ser, "Parallel": Par, "isinstance": isinstance, "_is_floating": lambda x: True, "isclose": lambda a, b, atol=0: abs(float(a) - b) <= atol,
+                                                    "abs": abs, "exp": app("exp"), "ln": app("log"), "sin": app("sin"), "cos": app("cos"), "cosh": app("cosh")})
+        pi = ns["pi"]
+        tt, gam = ns["_calculate_tau_gamma"](Circ(), None, W, 10)
+        tau1 = (R1 * Y1) ** (1.0 / n1)
+        tau2 = (R2 * C2) ** (1.0 / 1.0)
+        g1 = R1 / (2 * pi) * ns["sin"]((1 - n1) * pi) / (ns["cosh"](n1 * ns["ln"](tt / tau1)) - ns["cos"]((1 - n1) * pi))
+        g2 = R2 / (W * ns["sqrt"](pi)) * ns["exp"](-1 * (ns["ln"](tt / tau2) / W) ** 2)
+        sess.check("lemma", P.hyps, P.eq_goal(gam.v, g1 + g2), 0, label="gamma((RQ)(RC)) == closed form of the RQ element + closed form of the RC element, each with its own parameters")
+    return (f"{MRQ}:_calculate_tau_gamma[two elements]", MRQ, "_calculate_tau_gamma", run)
+
+
 def targets():
-    return [target_nnls_kernel(), target_normalize(), target_lm_peaks(), target_mrq()]
+    return [target_nnls_kernel(), target_normalize(), target_lm_peaks(), target_mrq(), target_mrq_two_elements()]
